@@ -32,6 +32,7 @@ import (
 	"io"
 	"os"
 	"os/exec"
+	"path/filepath"
 	"regexp"
 	"runtime"
 	"strconv"
@@ -139,7 +140,27 @@ var c13IdleText = []string{
 	"setoption name Hash value 2",
 	"position fen 7k/5Q2/6K1/8/8/8/8/8 b - - 0 1",                                   // stalemate: no legal move
 	"position fen r1bqkbnr/pppp1Qpp/2n5/4p3/2B1P3/8/PPPP1PPP/RNB1K1NR b KQkq - 0 4", // checkmated
+	// near-final roots (index c13NearFinal ..): every line ends after a few plies (fifty-move rule,
+	// repetition, mate, stalemate), so that even a deep iterative deepening takes milliseconds
+	"position fen 8/8/4k3/8/8/3K4/8/8 w - - 99 80", // K v K
+	"position fen 8/8/4k3/8/8/3K4/8/8 b - - 97 79",
+	"position fen 8/8/4k3/8/8/3K4/8/8 w - - 92 70",
+	"position fen 8/8/4k3/8/8/3K4/8/8 b - - 88 65",
+	"position fen 4k3/7r/8/8/8/8/R7/4K3 w - - 98 90", // KR v KR
+	"position fen 4k3/7r/8/8/8/8/R7/4K3 b - - 96 90",
+	"position fen 8/8/4k3/8/8/2BNK3/8/8 w - - 97 90", // KBN v K
+	"position fen 8/8/4k3/8/8/2BNK3/8/8 b - - 99 90",
+	"position fen 8/8/4k3/8/8/3QK3/8/8 w - - 98 90", // KQ v K
+	"position fen 8/8/4k3/8/8/3QK3/8/8 b - - 95 90",
+	"position fen 8/8/4k3/8/8/3K4/8/8 w - - 98 80 moves d3d4",    // clock 99 after the move
+	"position fen 8/8/4k3/8/8/3K4/8/8 w - - 100 80",              // the fifty-move draw is already there
+	"position startpos moves g1f3 g8f6 f3g1 f6g8 g1f3 g8f6 f3g1", // f6g8 repeats the start position a third time
+	"position fen 7k/8/4Q1K1/8/8/8/8/8 w - - 94 80",              // Qf7 stalemates, Qe8 mates
+	"position fen 6k1/5ppp/8/8/8/8/8/R5K1 w - - 90 60",           // mate in one
+	"position fen 7k/5Q2/6K1/8/8/8/8/8 b - - 93 70",              // stalemate: no legal move
 }
+
+const c13NearFinal = 8 // first near-final root in c13IdleText
 
 func (l c13Line) text() string {
 	switch l.code {
@@ -870,7 +891,11 @@ func c13GenScript(rng *hx.Rng, mode int64) []c13Line {
 			add(c13Idle, 0, 0)
 		}
 		if rng.Chance(0.6) {
-			add(c13Idle, 0, int64(1+rng.Intn(len(c13IdleText)-1)))
+			if rng.Chance(0.1) {
+				add(c13Idle, 0, int64(c13NearFinal+rng.Intn(len(c13IdleText)-c13NearFinal)))
+			} else {
+				add(c13Idle, 0, int64(1+rng.Intn(c13NearFinal-1)))
+			}
 		}
 		if rng.Chance(0.1) {
 			add(c13SetPonder, int64(rng.Intn(2)), 0)
@@ -982,7 +1007,89 @@ func genC13(rng *hx.Rng, n int, tier string, emit func(hx.Input)) {
 			c13W = nil
 		}
 	}()
+	if old, err := filepath.Glob("c13-crash-*.log"); err == nil {
+		for _, f := range old {
+			os.Remove(f) // crash logs of an earlier run
+		}
+	}
+	os.Remove("c13-slow.log")
 	cnt := 0
+	// pondering left alone: Ponder on, a near-final root, go ponder with the REAL search, nothing for
+	// 100..400 ms (the search runs through all its iterations meanwhile), then ponderhit / stop /
+	// isready+stop / quit / end of input. A handful of cases per 1000 (each costs its wait).
+	np := n / 250
+	if tier != "quick" {
+		np = n / 100
+	}
+	for j := 0; j < np && c13Stuck < 4 && c13Crashes < 40; j, cnt = j+1, cnt+1 {
+		c := &c13Case{mode: 1, unit: 1000}
+		if rng.Chance(0.3) {
+			c.lines = append(c.lines, c13Line{code: c13Uci})
+		}
+		c.lines = append(c.lines, c13Line{code: c13SetPonder, a: 1})
+		root := c13NearFinal + rng.Intn(len(c13IdleText)-c13NearFinal)
+		if j < 3 || rng.Chance(0.4) {
+			root = c13NearFinal + []int{0, 4, 6, 1, 8, 7}[rng.Intn(6)] // the fastest ones
+		}
+		c.lines = append(c.lines, c13Line{code: c13Idle, c: int64(root)})
+		if rng.Chance(0.3) {
+			c.lines = append(c.lines, c13Line{code: c13Isready})
+		}
+		g := c13Line{code: c13Go, a: gfPonder | gfSelffin, b: c13RealInfos}
+		switch rng.Intn(5) {
+		case 0:
+			g.c = 0 // infinite
+		case 1:
+			g.c = 1 + 16*int64(100+rng.Intn(100)) // depth >= 100
+		case 2:
+			g.c = 3 + 16*100000 // movetime
+			g.a |= gfTimed
+		default:
+			g.c = 4 + 16*60000 // clocks
+			g.a |= gfTimed
+		}
+		c.lines = append(c.lines, g)
+		wait := int64(100 + rng.Intn(300))
+		switch rng.Intn(6) {
+		case 0:
+			c.lines = append(c.lines, c13Line{code: c13Ponderhit, delay: wait}, c13Line{code: c13Stop, delay: int64(rng.Intn(3))})
+		case 1:
+			c.lines = append(c.lines, c13Line{code: c13Stop, delay: wait})
+		case 2:
+			c.lines = append(c.lines, c13Line{code: c13Isready, delay: wait}, c13Line{code: c13Stop, delay: int64(rng.Intn(3))})
+		case 3:
+			c.lines = append(c.lines, c13Line{code: c13Quit, delay: wait})
+		case 4:
+			c.tail = wait // end of input
+		default:
+			c.lines = append(c.lines, c13Line{code: c13Ponderhit, delay: wait})
+		}
+		if last := c.lines[len(c.lines)-1]; last.code == c13Stop && rng.Bool() {
+			c.lines = append(c.lines, c13Line{code: c13Isready}, c13Line{code: c13Quit})
+		}
+		emit(c13Input(c, "ponder-left-alone"))
+	}
+	// pondering with a node limit on an ordinary root (the limit is reached, the search goes on
+	// pondering with a frozen node counter), then stop / quit / end of input must still end it
+	for j := 0; j < n/200 && c13Stuck < 4 && c13Crashes < 40; j, cnt = j+1, cnt+1 {
+		c := &c13Case{mode: 1, unit: 1000}
+		c.lines = append(c.lines, c13Line{code: c13SetPonder, a: 1})
+		c.lines = append(c.lines, c13Line{code: c13Idle, c: int64([]int{1, 2, 4}[rng.Intn(3)])})
+		nodes := []int64{1, 50, 200, 1000, 3000, 5000}[rng.Intn(6)]
+		c.lines = append(c.lines, c13Line{code: c13Go, a: gfPonder | gfSelffin, b: c13RealInfos, c: 2 + 16*nodes})
+		wait := int64(5 + rng.Intn(40))
+		switch rng.Intn(4) {
+		case 0:
+			c.lines = append(c.lines, c13Line{code: c13Stop, delay: wait})
+		case 1:
+			c.lines = append(c.lines, c13Line{code: c13Isready, delay: wait}, c13Line{code: c13Stop, delay: int64(rng.Intn(3))}, c13Line{code: c13Isready})
+		case 2:
+			c.lines = append(c.lines, c13Line{code: c13Quit, delay: wait})
+		default:
+			c.tail = wait
+		}
+		emit(c13Input(c, "ponder-node-limit"))
+	}
 	// back-to-back: searches that end at once, the next guarded line sent the moment the bestmove is
 	// seen (hits the window between printing bestmove and the end of handleGo)
 	for ; cnt < 7*n/20 && c13Stuck < 4 && c13Crashes < 40; cnt++ {
